@@ -1401,6 +1401,17 @@ def oracle(ch, im, src_root: Path, out: Path, enc=UTF8, cfg=DEFAULT_CFG):
                     dpth = out.joinpath("page", *n["loc"]) / sp.relative_to(src_root.joinpath(*n["loc"]))
                     if not dpth.is_file() or dpth.read_bytes() != sp.read_bytes():
                         fails.append((f"copy_subdir {item} of {n['path']}: {sp.relative_to(src_root)} not copied", None))
+    # ... and the mirror read the other way round (round 6): nothing is below <output>/page but the pages, the
+    # directories that hold them, the other files and the directories named by the copy_subdir IN EFFECT for a page
+    # (the page's own list or else the project's - not both, not an ancestor's)
+    allowed = {p for p, _ in spec_assets(ch, enc, pcs)} | set(exp_paths)
+    for p in exp_paths:
+        parts = p.split("/")[:-1]
+        allowed.update("/".join(parts[:k]) for k in range(1, len(parts) + 1))
+    extra = [x for x in im["out"] if x.rstrip("/") not in allowed]
+    for x in extra[:4]:
+        fails.append((f"{x} below <output>/page is neither a page, nor a file next to a page, nor part of a directory "
+                      f"named by the copy_subdir in effect for a page", None))
     return fails
 
 
